@@ -71,3 +71,13 @@ Theorem tr32_is_tr_of_rounded : forall c x y z,
   tr32 c (x, y, z) =
   rotate c (flip c (rnd32 (rnd32 x - rnd32 (t_sx c)), rnd32 (rnd32 y - rnd32 (t_sy c)), rnd32 z)).
 Proof. reflexivity. Qed.
+
+(* C12: with a genuine rotation and the identity index ratio (k = 1) the length of every move of the compiled program is
+   the distance between the path points it joins (squared lengths: no square root needed), so distance over feed summed
+   over a pass is the same for the program and for the path *)
+Theorem tr_length3 : forall c p q, t_c c * t_c c + t_s c * t_s c == 1 -> t_k c == 1 ->
+  (px3 (tr c p) - px3 (tr c q)) * (px3 (tr c p) - px3 (tr c q)) +
+  (py3 (tr c p) - py3 (tr c q)) * (py3 (tr c p) - py3 (tr c q)) +
+  (pz3 (tr c p) - pz3 (tr c q)) * (pz3 (tr c p) - pz3 (tr c q)) ==
+  (px3 p - px3 q) * (px3 p - px3 q) + (py3 p - py3 q) * (py3 p - py3 q) + (pz3 p - pz3 q) * (pz3 p - pz3 q).
+Proof. intros c p q H K. rewrite (tr_isometry c p q H), (tr_z c p q), K. ring. Qed.
